@@ -151,6 +151,16 @@ Proof.
   rewrite get_elt_eq by assumption. rewrite IH. reflexivity.
 Qed.
 
+Lemma conv_chunk_eq : forall k e, conv_chunk MI k e = conv_chunk MS k e.
+Proof. intros. unfold conv_chunk. rewrite num_to_raw_eq. reflexivity. Qed.
+
+Lemma conv_map_eq : forall st src k idxs, aligned src ->
+  map (fun i => conv_chunk MI k (fst (get_elt MI st src i))) idxs =
+  map (fun i => conv_chunk MS k (fst (get_elt MS st src i))) idxs.
+Proof.
+  intros. apply map_ext. intros i. rewrite get_elt_eq by assumption. apply conv_chunk_eq.
+Qed.
+
 Lemma fill_tail_eq : forall st vw bs rs re, aligned vw -> fill_tail MI st vw bs rs re = fill_tail MS st vw bs rs re.
 Proof. intros. unfold fill_tail. rewrite addr_MI_MS by assumption. reflexivity. Qed.
 
@@ -241,6 +251,10 @@ Proof.
     destruct (Iv v vw Hv) as (_ & _ & Hal & _).
     destruct (co_opt st from (v_len vw - 1)) as [st1 n]. rewrite scan_eq by assumption.
     destruct (scan MS st1 vw strict_eq x _) as [i|]; rewrite !addr_MI_MS by assumption; reflexivity.
+  - (* new T(typedArray) *)
+    unfold op_ctorfrom, with_view. destruct (nth_error (views st) sv) as [src|] eqn:Hv; [|reflexivity].
+    destruct (Iv sv src Hv) as (_ & _ & Hal & _).
+    rewrite conv_map_eq by assumption. rewrite !addr_MI_MS by assumption. reflexivity.
 Qed.
 
 (* the guard only excludes set(typedArray) between different kinds on one buffer *)
